@@ -108,17 +108,17 @@ DS2 = b'\x08\x00\x18\x00\x04\x00\x00\x001.2.'
 
 
 @cond(bounds='each of the 23 message classes: the same message object sent twice (three times in the thorough tier) '
-             'with message id, status, UID length (2 -> 1..2) and data-set presence (present / None / empty) changed '
+             'with message id, status, UID length (2 -> 1..4, so that the encoded size changes), optional fields (unset -> set) and data-set presence (present / None / empty) changed '
              'between sends (all symbolic)', family={'cls': list(range(23))}, timeout=120, thorough_timeout=600)
-def resend_wellformed(mid: int, mid2: int, n2: int, ds1: bool, ds2: int) -> bool:
+def resend_wellformed(mid: int, mid2: int, n2: int, ds1: bool, ds2: int, opt1: bool) -> bool:
     """
-    pre: 0 <= mid <= 65535 and 0 <= mid2 <= 65535 and 1 <= n2 <= 2 and 0 <= ds2 <= 2
+    pre: 0 <= mid <= 65535 and 0 <= mid2 <= 65535 and 1 <= n2 <= 4 and 0 <= ds2 <= 2
     post: _
     """
     cls = MSG_CLASSES[fam('cls')]
     msg = cls()
     a = make_assoc(16384)
-    set_fields(msg, mid, mid2, 2, True)
+    set_fields(msg, mid, mid2, 2, opt1)
     msg.data_set = DS1 if ds1 else None
     a.send(msg, 3)
     ok = sent_ok(a, cls, 3, ds1)
@@ -161,7 +161,7 @@ def explain(cname, args, famv):
         a.send(msg, 3)
         show(1)
     else:
-        set_fields(msg, args['mid'], args['mid2'], 2, True)
+        set_fields(msg, args['mid'], args['mid2'], 2, args['opt1'])
         msg.data_set = DS1 if args['ds1'] else None
         a.send(msg, 3)
         show(1)
